@@ -13,15 +13,15 @@ type intrinsic func(m *Machine, th *Thread, fr *Frame, f FuncV, args []Value) (V
 const zz = kitMod + "/zzverif."
 
 type syncState struct {
-	locked   bool
-	readers  int
-	wwaiting int
-	waiters  []*Thread
-	count    int64 // WaitGroup
-	vc       []int
+	locked      bool
+	readers     int
+	wwaiting    int
+	waiters     []*Thread
+	count       int64 // WaitGroup
+	vc          []int
 	onceRunning bool
-	onceDone bool
-	holder   int
+	onceDone    bool
+	holder      int
 }
 
 type poolState struct {
@@ -172,6 +172,9 @@ func intrinsicTable() map[string]intrinsic {
 	T[zz+"Symbolic"] = func(m *Machine, th *Thread, fr *Frame, f FuncV, a []Value) (Value, invStatus) {
 		return done(m.tt.tt)
 	}
+	T[zz+"Thorough"] = func(m *Machine, th *Thread, fr *Frame, f FuncV, a []Value) (Value, invStatus) {
+		return done(m.tt.Bool(m.H.Opts["tier"] == "thorough"))
+	}
 	T[zz+"And"] = func(m *Machine, th *Thread, fr *Frame, f FuncV, a []Value) (Value, invStatus) {
 		return done(m.tt.And(a[0].(*Term), a[1].(*Term)))
 	}
@@ -189,6 +192,20 @@ func intrinsicTable() map[string]intrinsic {
 	}
 	T[zz+"ErrIs"] = func(m *Machine, th *Thread, fr *Frame, f FuncV, a []Value) (Value, invStatus) {
 		return done(m.equal(a[0], a[1]))
+	}
+	T[zz+"Comparable"] = func(m *Machine, th *Thread, fr *Frame, f FuncV, a []Value) (Value, invStatus) {
+		iv := a[0].(IfaceV)
+		if iv.t == nil {
+			return done(m.tt.tt)
+		}
+		return done(m.tt.Bool(types.Comparable(iv.t)))
+	}
+	T[zz+"SameDynType"] = func(m *Machine, th *Thread, fr *Frame, f FuncV, a []Value) (Value, invStatus) {
+		x, y := a[0].(IfaceV), a[1].(IfaceV)
+		if x.t == nil || y.t == nil {
+			return done(m.tt.Bool(x.t == nil && y.t == nil))
+		}
+		return done(m.tt.Bool(types.Identical(x.t, y.t)))
 	}
 	T[zz+"EqBytes"] = func(m *Machine, th *Thread, fr *Frame, f FuncV, a []Value) (Value, invStatus) {
 		x, y := a[0].(SliceV), a[1].(SliceV)
@@ -425,13 +442,35 @@ func (m *Machine) globalCell(g *ssa.Global) *Cell {
 	m.ensureInit(pkg)
 	c, ok := m.pglobals[g]
 	if !ok {
-		c = m.mkCell(g.Type().(*types.Pointer).Elem())
+		et := g.Type().(*types.Pointer).Elem()
+		c = m.mkCell(et)
 		m.pnext--
 		c.id = m.pnext
 		c.site = "global " + pkg.Pkg.Path() + "." + g.Name()
 		m.setRoot(c, c)
 		c.ghost = true
 		m.pglobals[g] = c
+		path := pkg.Pkg.Path()
+		if noInitPkgs[path] || denyPkgPath(path) {
+			// the package initializer is not executed: error variables are distinct opaque non-nil errors, everything
+			// else scalar is unknown (poison) so that a read is reported instead of silently seeing a zero value
+			if c.kind == cScalar && g.Name() != "init$guard" {
+				if types.Identical(et, types.Universe.Lookup("error").Type()) {
+					m.pnext--
+					c.v = IfaceV{t: opaqueErrT, v: Opaque{kind: "error", id: m.pnext, data: &opaqueErr{msg: path + "." + g.Name()}}}
+				} else if path == "time" && (g.Name() == "UTC" || g.Name() == "Local") {
+					lc := m.mkCell(et.(*types.Pointer).Elem())
+					m.pnext--
+					lc.id = m.pnext
+					lc.site = "time." + g.Name()
+					m.setRoot(lc, lc)
+					lc.ghost = true
+					c.v = Ptr{c: lc}
+				} else if _, isB := et.Underlying().(*types.Basic); !isB {
+					c.v = Poison{"global " + path + "." + g.Name() + " (package initializer not executed)"}
+				}
+			}
+		}
 	}
 	return c
 }
